@@ -979,7 +979,7 @@ def schedule_outcomes(base):
     t = base["tomo"]
     def pm(name):
         if name in M.Q1_POVM_SETS:
-            return [int(k.rsplit("_m", 1)[1]) for k in M.Q1_POVM_SETS[name]]
+            return [M.Q1_POVM_M[k] for k in M.Q1_POVM_SETS[name]]
         m, K = name[1:].split("x")
         return [int(m)] * int(K)
     def ns(name):
